@@ -255,12 +255,37 @@ func (r *rewriter) rewriteSelect(n *ast.SelectStmt) ast.Stmt {
 	if len(n.Body.List) == 0 {
 		return &ast.ExprStmt{X: r.call("ParkForever")}
 	}
-	// an unlabelled continue inside a clause body would bind to our loop
+	// an unlabelled continue inside a clause body would bind to our poll loop
+	// instead of the caller's loop: it becomes "remember, leave the poll loop,
+	// continue from outside it"
+	contName, loopLabel := "", ""
 	for _, cl := range n.Body.List {
 		cc := cl.(*ast.CommClause)
 		for _, s := range cc.Body {
 			if hasBareContinue(s) {
-				fail("%s: unlabelled continue inside a select clause is not supported", r.pos(n))
+				contName, loopLabel = r.fresh("cont"), r.fresh("poll")
+			}
+		}
+	}
+	if contName != "" {
+		r.stats["select-continue"]++
+		for _, cl := range n.Body.List {
+			cc := cl.(*ast.CommClause)
+			for i, st := range cc.Body {
+				cc.Body[i] = astutil.Apply(st, func(c *astutil.Cursor) bool {
+					switch x := c.Node().(type) {
+					case *ast.ForStmt, *ast.RangeStmt, *ast.FuncLit:
+						return false
+					case *ast.BranchStmt:
+						if x.Tok == token.CONTINUE && x.Label == nil {
+							c.Replace(&ast.BlockStmt{List: []ast.Stmt{
+								&ast.AssignStmt{Lhs: []ast.Expr{ast.NewIdent(contName)}, Tok: token.ASSIGN, Rhs: []ast.Expr{ast.NewIdent("true")}},
+								&ast.BranchStmt{Tok: token.BREAK, Label: ast.NewIdent(loopLabel)},
+							}})
+						}
+					}
+					return true
+				}, nil).(ast.Stmt)
 			}
 		}
 	}
@@ -357,6 +382,16 @@ func (r *rewriter) rewriteSelect(n *ast.SelectStmt) ast.Stmt {
 		def = ast.NewIdent("true")
 	}
 	init := &ast.AssignStmt{Lhs: []ast.Expr{ast.NewIdent(selName)}, Tok: token.DEFINE, Rhs: []ast.Expr{r.call("Select", intLit(ncomm), def)}}
+	if contName != "" {
+		// (the block keeps the helper variables out of the caller's scope; the
+		// trailing continue sits outside the poll loop, i.e. in the caller's loop)
+		return &ast.BlockStmt{List: []ast.Stmt{
+			init,
+			&ast.AssignStmt{Lhs: []ast.Expr{ast.NewIdent(contName)}, Tok: token.DEFINE, Rhs: []ast.Expr{ast.NewIdent("false")}},
+			&ast.LabeledStmt{Label: ast.NewIdent(loopLabel), Stmt: loop},
+			&ast.IfStmt{Cond: ast.NewIdent(contName), Body: &ast.BlockStmt{List: []ast.Stmt{&ast.BranchStmt{Tok: token.CONTINUE}}}},
+		}}
+	}
 	return &ast.BlockStmt{List: []ast.Stmt{init, loop}}
 }
 
